@@ -284,3 +284,42 @@ def run_shard(shard, ctx):
                 ctx.close("conditional.Sigma", got["cS"], np.array([c[2] for c in cm]), facts=f2, tol=1e-7)
                 if vi == 0 and Rx == 1 and oracle == "closed_form":
                     ctx.sample(dict(shard=shard["id"], params={k: v for k, v in par.items()}, p_x=dict(mu=mx, Sigma=Sx), E_y=Ey, Cov_y=Cy, Cov_yx=Cyx))
+            # ---- histories: the SAME conditional object and the SAME p_x object, used again after an in-place change ----
+            phases = [("px_updated", None)]
+            if kind in ("LRBF", "LSEM"):
+                phases.append(("phi_updated", None))
+            for phase, _ in phases:
+                f3 = dict(facts, phase=phase)
+                with ctx.guard("history." + phase, f3) as g:
+                    if phase == "px_updated":
+                        Sd = objs.spd_batch(Dx, 1, vi + 3, seed, tag + ("upd",))
+                        md = objs.vec_batch(Dx, 1, vi + 3, seed, tag + ("upd",)) * 0.5
+                        p_x.update(jnp.array([Rx - 1]), objs.mk_pdf("GaussianPDF", Sd, md))
+                        mx2, Sx2 = mx.copy(), Sx.copy()
+                        mx2[Rx - 1], Sx2[Rx - 1] = md[0], Sd[0]
+                        par2 = par
+                    else:
+                        mx2, Sx2 = np.asarray(p_x.mu), np.asarray(p_x.Sigma)
+                        par2 = dict(par)
+                        if kind == "LRBF":
+                            par2["cen"] = par["cen"] * -0.7 + 0.2
+                            cond.mu = J(par2["cen"])
+                        else:
+                            par2["w0"] = par["w0"] * -0.8 + 0.1
+                            cond.w0 = J(par2["w0"])
+                        cond.update_phi()
+                    got2 = dict(my=np.asarray(cond.affine_marginal_transformation(p_x).mu), Sy=np.asarray(cond.affine_marginal_transformation(p_x).Sigma), Sj=np.asarray(cond.affine_joint_transformation(p_x).Sigma), cM=np.asarray(cond.affine_conditional_transformation(p_x).M))
+                if not g.ok:
+                    continue
+                refs = [closed_form_moments(par2, kind, mx2[r], Sx2[r]) for r in range(Rx)]
+                Ey = np.array([r_[0] for r_ in refs])
+                Cy = np.array([r_[1] for r_ in refs])
+                Cyx = np.array([r_[2] for r_ in refs])
+                sc = float(max(1.0, np.max(np.abs(Cy))))
+                ctx.close("history.%s.marginal.mu" % phase, got2["my"], Ey, facts=f3)
+                ctx.close("history.%s.marginal.Sigma" % phase, got2["Sy"], Cy, scale=sc, facts=f3)
+                Sj = np.array([np.block([[Sx2[r], Cyx[r].T], [Cyx[r], Cy[r]]]) for r in range(Rx)])
+                ctx.close("history.%s.joint.Sigma" % phase, got2["Sj"], Sj, scale=sc, facts=f3)
+                mj = np.concatenate([mx2, Ey], axis=1)
+                cm = [rm.conditional(mj[r], Sj[r], range(Dx), range(Dx, Dx + Dy)) for r in range(Rx)]
+                ctx.close("history.%s.conditional.M" % phase, got2["cM"], np.array([c[0] for c in cm]), facts=f3, tol=1e-7)
